@@ -81,10 +81,16 @@ fn exec_inner(t: &[&str], cx: &mut Ctx) -> Option<String> {
         let (rate, path) = paths.to(&token(tgt as u64));
         let raw = paths.verif_distance(&token(tgt as u64));
         let ids: Vec<u64> = path.iter().map(unmarket).collect();
-        // `to` reports exp(-distance): recover the distance it used
-        let reported: Option<i128> = match rate {
-            None => None,
-            Some(rt) => match raw { Some(d) if (-d).exp() == rt => Some(cents(d)), _ => { cx.fails.push(format!("target {tgt}: reported rate {rt} is not exp(-distance)")); None } },
+        // `to` reports exp(-distance) when that is representable (`checked_exp`), else no rate; `exp`
+        // itself is not modelled, so the response carries the distance `to` used
+        let expect_rate = raw.and_then(|d| (-d).checked_exp());
+        let reported: Option<i128> = if !ids.is_empty() || tgt == r.src {
+            if rate != expect_rate { cx.fails.push(format!("target {tgt}: reported rate {rate:?} is not exp(-distance) = {expect_rate:?}")); }
+            if raw.is_some() && expect_rate.is_none() { cx.stats.push("rate.unrepresentable".into()); }
+            raw.map(cents)
+        } else {
+            if rate.is_some() { cx.fails.push(format!("target {tgt}: a rate without a path")); }
+            None
         };
         out.push(format!("{tgt}={}/{}/{}", reported.map(|d| d.to_string()).unwrap_or("-".into()),
             if ids.is_empty() { "-".into() } else { ids.iter().map(|m| m.to_string()).collect::<Vec<_>>().join("+") },
@@ -112,7 +118,7 @@ fn exec_inner(t: &[&str], cx: &mut Ctx) -> Option<String> {
                         let what = format!("target {tgt}: reported distance {d} but the path {ids:?} costs {cost}");
                         if arb != Some(false) { cx.known.push(("F-C42-dfs".into(), what)); } else { cx.fails.push(what); }
                     }
-                    None => cx.fails.push(format!("target {tgt}: path without a rate")),
+                    None => cx.fails.push(format!("target {tgt}: path without a distance")),
                 }
                 // best within the limit (only claimed when no arbitrage cycle exists)
                 if arb == Some(false) || (arb.is_none() && no_negative_cycle(&r)) {
@@ -168,9 +174,9 @@ fn gen_req(r: &mut Rng) -> String {
     for _ in 0..extra { let a = r.below(n as u64) as usize; let b = r.below(n as u64) as usize; if a != b || r.chance(1, 8) { markets.push((a, b)); } }
     // first appearance order must be 0,1,2,...: the chain above guarantees it when listed first
     let neg = r.chance(1, 4); // allow negative costs (arbitrage) in a quarter of the graphs
+    let big = r.chance(1, 8); // distances beyond what `exp` can represent (regression of the fixed panic)
     let mut cost = |r: &mut Rng| -> String {
-        // |distance| stays below ~11 (see design.d/C42.md: `exp` of larger distances panics)
-        match r.below(12) { 0 => "x".into(), 1 if neg => format!("-{}", r.range(1, 150)), 2 => "0".into(), 3 => r.range(1, 5).to_string(), _ => r.range(1, 180).to_string() }
+        match r.below(12) { 0 => "x".into(), 1 if neg => format!("-{}", r.range(1, if big { 3000 } else { 300 })), 2 => "0".into(), 3 => r.range(1, 5).to_string(), _ => r.range(1, if big { 6000 } else { 400 }).to_string() }
     };
     let mut es = vec![];
     for (i, (a, b)) in markets.iter().enumerate() { let m = 10 + i; es.push(format!("{a}.{b}.{m}.{}", cost(r))); es.push(format!("{b}.{a}.{m}.{}", cost(r))); }
